@@ -3,6 +3,7 @@ import sys
 from . import _seq, _buf
 from ..core import lib, seams
 from ..core.values import same
+from ..core import model as M
 from ..engines.seqsim import World, Violation
 
 ID = "C15"
@@ -60,6 +61,33 @@ class W(World):
         if c["kind"] == "backend" and c.get("cap") is not None:
             self.caps[cls] = c["model_cap_before"]
 
+    def faulted_op(self, st, r, ob, h, name, args, trial, mres):
+        """An I/O error hits one seam call of an operation INSIDE a buffered context (first access: read / stat of the file;
+        forced flush: write).  The operation may fail and may or may not have been applied, so the resource becomes
+        "uncertain": its content is no longer compared until the contexts have exited (then the model follows the disk),
+        but the bookkeeping oracles (size exact w.r.t. what the buffer really holds, size <= capacity, 0 outside contexts,
+        capacity) must hold as after any other operation."""
+        from ..core.values import plain
+        if not (hasattr(ob.o, "buffered") and self.is_buffered(ob)):
+            return super().faulted_op(st, r, ob, h, name, args, trial, mres)
+        self.seams.arm({"at": st["fault"]["at"], "exc": tuple(st["fault"]["exc"])})
+        try:
+            self.lib_op(h.node, name, args, st.get("attr", False))
+        finally:
+            fired = bool(self.seams.fired)
+            del self.seams.fired[:]
+            self.seams.disarm()
+        self.stat("ops")
+        if fired:
+            self.stat("fault_io_error")
+            self.probe("fault_fired_in_buffered_op")
+        r.uncertain = True       # left alone until the contexts exit; then the model follows the disk (World.resync_uncertain)
+        self.buffered_touch(r, ob, True, True)
+        for x in self.handles:
+            if x is not None and x.path and self.objs[x.oid].rid == r.rid and x.state == "attached":
+                x.state = "dropped"
+        self.check_bufsize("after an operation with an injected I/O error inside a buffered context")
+
     def st_setcap(self, st):
         cls = self.cls_of(st["family"], st["kind"])
         self.model_cap(cls)
@@ -94,6 +122,8 @@ class W(World):
             mine = [r for r in self.res if r.store == "file" and self.cls_of(r.family, r.kind) is cls]
             # black-box cross-check: a file whose disk content differs from its logical content must be held
             for r in mine:
+                if getattr(r, "uncertain", False):
+                    continue
                 obs = self.observe(r)
                 differs = self.differs(r, obs)
                 if differs and r.ident not in held:
@@ -101,7 +131,9 @@ class W(World):
             if self.cfg["strategy"] == "serialized":
                 expect = 0
                 for r in mine:
-                    if r.ident in held:
+                    if r.ident in held and getattr(r, "uncertain", False):
+                        expect += len(buf[r.ident].get("contents") or b"")     # (only self-consistency can be demanded here)
+                    elif r.ident in held:
                         expect += len(seams.REAL["dumps"](r.model).encode())
             else:
                 expect = 0
@@ -110,7 +142,7 @@ class W(World):
                         expect += 1
                 # cross-check the flag black-box: a held file that differs from disk must be flagged
                 for r in mine:
-                    if r.ident in held and not buf[r.ident].get("modified"):
+                    if r.ident in held and not buf[r.ident].get("modified") and not getattr(r, "uncertain", False):
                         obs = self.observe(r)
                         if self.differs(r, obs):
                             raise Violation("modified_flag_missing", f"{what}: resource {r.rid} differs from disk but is not flagged modified")
@@ -152,6 +184,11 @@ def gen_step(w, rg):
     # only the OUTERMOST exit is faulted (no context remains, so every oracle has a crisp expectation), default capacity
     if st and st["t"] == "exit" and len(w.ctx) == 1 and w.cfg.get("p_fault") and rg.random() < w.cfg["p_fault"]:
         st["fault"] = {"at": rg.randrange(0, 8), "exc": ["OSError", rg.choice(["EIO", "ENOSPC", "EACCES", "EMFILE"])]}
+    elif (st and st["t"] == "op" and w.ctx and w.cfg.get("p_fault") and not st.get("keep") and rg.random() < 0.2
+          and w.handles[st["hid"]] is not None and w.is_buffered(w.objs[w.handles[st["hid"]].oid])
+          and w.res[w.objs[w.handles[st["hid"]].oid].rid].disk is not None):
+        # an I/O error inside an operation of a buffered collection (typically its first buffered access: read + stat)
+        st["fault"] = {"at": rg.randrange(0, 6), "exc": ["OSError", rg.choice(["EIO", "EACCES", "EMFILE", "ENOTDIR"])]}
     return st
 
 
